@@ -513,6 +513,7 @@ def cases(tier, seed):
     for op in ("add", "sub", "lt", "ge", "floordiv", "mod"):
         for u, v in covers.cross_dim_pairs(seed, 200 if big else 4):
             out.append(Case("H03.c", f"{op}-cross:{u},{v}", M, "h_cross_dimension", {"op": op, "u": u, "v": v}))
+    out.append(Case("H03.obs", "observed", "pvlib.harness.observed", "h_c03", {}, kind="conc"))
     return out
 
 
